@@ -16,33 +16,33 @@ open PV.Text
 def BuiltinOK (cfg : Cfg) (t : Terminal) : Prop := t.WF ∧ cfg.params.LenOk t ∧ cfg.params.GroupOk t
 
 mutual
-theorem G.Core_mono {P Q : Terminal → Prop} (h : ∀ t, P t → Q t) : ∀ g : G, g.Core P → g.Core Q
+theorem G.Core_monoT {P Q : Terminal → Prop} (h : ∀ t, P t → Q t) : ∀ g : G, g.Core P → g.Core Q
   | .term t, hg => by simp only [G.Core] at hg ⊢; exact h t hg
   | .empty, _ => by simp [G.Core]
   | .eof, _ => by simp [G.Core]
   | .ref _, _ => by simp [G.Core]
-  | .memo _ g, hg => by simp only [G.Core] at hg ⊢; exact G.Core_mono h g hg
-  | .any gs, hg => by simp only [G.Core] at hg ⊢; exact CoreList_mono h gs hg
-  | .choice gs, hg => by simp only [G.Core] at hg ⊢; exact CoreList_mono h gs hg
-  | .seq _ gs _, hg => by simp only [G.Core] at hg ⊢; exact CoreList_mono h gs hg
-  | .many g _ _, hg => by simp only [G.Core] at hg ⊢; exact G.Core_mono h g hg
-  | .sepBy v s _ _, hg => by simp only [G.Core] at hg ⊢; exact ⟨G.Core_mono h v hg.1, G.Core_mono h s hg.2⟩
-  | .optional g, hg => by simp only [G.Core] at hg ⊢; exact G.Core_mono h g hg
-  | .name g _, hg => by simp only [G.Core] at hg ⊢; exact G.Core_mono h g hg
-  | .single g, hg => by simp only [G.Core] at hg ⊢; exact G.Core_mono h g hg
-  | .suppress g, hg => by simp only [G.Core] at hg ⊢; exact G.Core_mono h g hg
+  | .memo _ g, hg => by simp only [G.Core] at hg ⊢; exact G.Core_monoT h g hg
+  | .any gs, hg => by simp only [G.Core] at hg ⊢; exact CoreList_monoT h gs hg
+  | .choice gs, hg => by simp only [G.Core] at hg ⊢; exact CoreList_monoT h gs hg
+  | .seq _ gs _, hg => by simp only [G.Core] at hg ⊢; exact CoreList_monoT h gs hg
+  | .many g _ _, hg => by simp only [G.Core] at hg ⊢; exact G.Core_monoT h g hg
+  | .sepBy v s _ _, hg => by simp only [G.Core] at hg ⊢; exact ⟨G.Core_monoT h v hg.1, G.Core_monoT h s hg.2⟩
+  | .optional g, hg => by simp only [G.Core] at hg ⊢; exact G.Core_monoT h g hg
+  | .name g _, hg => by simp only [G.Core] at hg ⊢; exact G.Core_monoT h g hg
+  | .single g, hg => by simp only [G.Core] at hg ⊢; exact G.Core_monoT h g hg
+  | .suppress g, hg => by simp only [G.Core] at hg ⊢; exact G.Core_monoT h g hg
   | .ltrim _ _, hg => by simp [G.Core] at hg
   | .rtrim _ _, hg => by simp [G.Core] at hg
-theorem CoreList_mono {P Q : Terminal → Prop} (h : ∀ t, P t → Q t) : ∀ gs : List G, CoreList P gs → CoreList Q gs
+theorem CoreList_monoT {P Q : Terminal → Prop} (h : ∀ t, P t → Q t) : ∀ gs : List G, CoreList P gs → CoreList Q gs
   | [], _ => by simp [CoreList]
-  | g :: gs, hg => by simp only [CoreList] at hg ⊢; exact ⟨G.Core_mono h g hg.1, CoreList_mono h gs hg.2⟩
+  | g :: gs, hg => by simp only [CoreList] at hg ⊢; exact ⟨G.Core_monoT h g hg.1, CoreList_monoT h gs hg.2⟩
 end
 
 /-- a grammar over built-in terminals is in the scope of the positional theorems -/
 theorem scope_of_builtin (cfg : Cfg) (g : G) (hroot : g.Core (BuiltinOK cfg))
     (henv : ∀ g' ∈ cfg.env, g'.Core (BuiltinOK cfg)) : Scope cfg g :=
-  ⟨G.Core_mono (fun t ht => c08_termGood cfg t ht.1 ht.2.1 ht.2.2) g hroot,
-   fun g' hg' => G.Core_mono (fun t ht => c08_termGood cfg t ht.1 ht.2.1 ht.2.2) g' (henv g' hg')⟩
+  ⟨G.Core_monoT (fun t ht => c08_termGood cfg t ht.1 ht.2.1 ht.2.2) g hroot,
+   fun g' hg' => G.Core_monoT (fun t ht => c08_termGood cfg t ht.1 ht.2.1 ht.2.2) g' (henv g' hg')⟩
 
 /-- **C01 spans for grammars over any built-in terminals** -/
 theorem c01_spans_builtin (cfg : Cfg) (g : G) (hroot : g.Core (BuiltinOK cfg))
